@@ -14,6 +14,9 @@ class VfsLookup:
 
 def handle_vfs_lookup(parser, events):
     node = parser.parse_vnode(events)
+    if not node.ktraces:
+        # A continuation record of a multi-record lookup, dispatched on its own: not a lookup by itself.
+        return None
     return VfsLookup(events, node.path, node.vnode_id)
 
 
